@@ -1,235 +1,51 @@
-(* Proofs/C01_EqCover.v - coverage of the proved classes relative to Known_C01: every exclusion of a class
-   recogniser lies inside Known_C01 (Model/KnownC01.v), so that "outside Known_C01" implies "in the proved
-   class":
+(* Proofs/C01_EqCover.v - coverage of the proved classes relative to Known_C01: Known_C01 (Model/KnownC01.v)
+   consists of the file scheme (class 1) and of the EXACT exclusions of the class recognisers, computed on the
+   raw text (classes 2-4), so that "outside Known_C01" implies "in the proved class":
      - no base: EVERY input with known_c01 None input = 0 is in in_proved_class3 None;
-     - a `related` base with a non-special scheme (opaque path or not): every scheme-less reference with
-       known_c01 (Some b) input = 0 is in in_proved_class3 (Some sb).
-   Mechanism: the exclusions are (a) authority exactly ":@" -> the text contains ":@" (class 4); (b) a port
-   followed by a backslash -> the text contains a backslash (class 3, non-special schemes); (c) a ".." meeting
-   a drive-letter-shaped segment of the Standard's segment list -> the raw text, or the path of the base,
-   contains a drive-letter-shaped piece (class 2). *)
+     - a good_base pair of the right shape: every reference with known_c01 (Some b) input = 0 is in
+       in_proved_class3 (Some sb).
+   Mechanism (Proofs/C01_KnownExact.v): the cuts of the authority Known_C01 makes are the cuts of the
+   Standard's states; its raw path simulation (one drive-letter flag per segment) implies the test on the
+   Standard's own state; the flags of the base path are read off the serialized path of the model record,
+   which is the serialization of the Standard's segment list. *)
+From Coq Require Import ZifyBool ZifyN.
 From RU Require Import Base.Prelude Base.Utf8 Base.Utf8Facts Model.AsciiSet Gen.Tables
   Model.PercentEncoding Model.HostT Model.UrlRecord Model.Parser Model.Setters Model.WF Model.KnownC01 Spec.Whatwg
   Proofs.C02_Parts Proofs.C02_Path Proofs.C03_WF Proofs.C01_Tables Proofs.C08_Input
-  Proofs.C01_EqRun Proofs.C01_EqEnc Proofs.C01_EqApi Proofs.C01_EqOpaque Proofs.C01_EqRef
+  Proofs.C01_EqRun Proofs.C01_EqEnc Proofs.C01_EqApi Proofs.C01_EqOpaque Proofs.C01_EqRef Proofs.C01_EqDots
   Proofs.C01_EqPathSpec Proofs.C01_EqPath Proofs.C01_EqEmpty
   Proofs.C01_EqClasses Proofs.C01_EqAuthSpec Proofs.C01_EqAuthModel Proofs.C01_EqAuth Proofs.C01_EqClasses2
   Proofs.C01_EqRel Proofs.C01_EqRelPath Proofs.C01_EqRelArms Proofs.C01_EqRelBase
-  Proofs.C01_EqSpSpec Proofs.C01_EqSpPath Proofs.C01_EqSpModel Proofs.C01_EqSp Proofs.C01_EqSpKnown
+  Proofs.C01_EqSpSpec Proofs.C01_EqSpPath Proofs.C01_EqSpModel Proofs.C01_EqSp Proofs.C01_KnownExact Proofs.C01_EqSpKnown
   Proofs.C01_EqAbs Proofs.C01_EqSpBase Proofs.C01_EqSpBare Proofs.C01_EqAsm Proofs.C01_EqShape.
 
-(* ================= suffixes ================= *)
-Definition suffix_of (s t : list N) : Prop := exists pre, t = pre ++ s.
-
-Lemma suffix_refl t : suffix_of t t.
-Proof. exists []. reflexivity. Qed.
-Lemma suffix_trans a b c : suffix_of a b -> suffix_of b c -> suffix_of a c.
-Proof. intros [p1 ->] [p2 ->]. exists (p2 ++ p1). rewrite app_assoc. reflexivity. Qed.
-Lemma suffix_cons c s t : suffix_of (c :: s) t -> suffix_of s t.
-Proof. intros [p ->]. exists (p ++ [c]). rewrite <- app_assoc. reflexivity. Qed.
-Lemma suffix_in x s t : suffix_of s t -> In x s -> In x t.
-Proof. intros [p ->] H. apply in_or_app. right. exact H. Qed.
-
-Lemma memb_false_suffix c s t : suffix_of s t -> memb c t = false -> memb c s = false.
-Proof.
-  intros Hs H. destruct (memb c s) eqn:E; [|reflexivity]. apply memb_spec in E.
-  pose proof (suffix_in c s t Hs E) as K. apply memb_spec in K. congruence.
-Qed.
-
-Lemma hs_rest_suffix t : forall br, suffix_of (hs_rest br t) t.
-Proof.
-  induction t as [|c r IH]; intros br; [apply suffix_refl|]. cbn [hs_rest].
-  destruct (hs_stop br c); [apply suffix_refl|]. destruct (IH (br_next br c)) as [p E]. exists (c :: p). rewrite E at 1. reflexivity.
-Qed.
-
-Lemma after_at_suffix T : suffix_of (snd (after_at T)) T.
-Proof.
-  unfold after_at. destruct (last_at (a_part T)) as [[w h]|] eqn:E; cbn [snd]; [|apply suffix_refl].
-  exists (w ++ [64]). rewrite <- (a_part_rest T) at 1. rewrite (last_at_split _ _ _ E). rewrite <- !app_assoc. reflexivity.
-Qed.
-
-Lemma after_digits_suffix t : suffix_of (after_digits t) t.
-Proof. exists (digits_of t). symmetry. apply digits_after. Qed.
-
-Lemma port_split_suffix X PR : port_split X = Some PR -> suffix_of PR X.
-Proof.
-  destruct X as [|c r]; [discriminate|]. cbn [port_split]. destruct (c =? 58); [|discriminate].
-  intros H. inversion H; subst. exists [c]. reflexivity.
-Qed.
-
-Lemma auth_path_text_suffix T : suffix_of (auth_path_text T) T.
-Proof.
-  unfold auth_path_text.
-  pose proof (suffix_trans _ _ _ (hs_rest_suffix (snd (after_at T)) false) (after_at_suffix T)) as S1.
-  destruct (port_split (hs_rest false (snd (after_at T)))) as [PR|] eqn:E; [|exact S1].
-  exact (suffix_trans _ _ _ (after_digits_suffix PR) (suffix_trans _ _ _ (port_split_suffix _ _ E) S1)).
-Qed.
-
-(* ================= ":@" ================= *)
-Lemma has_colon_at_suffix s t : suffix_of s t -> has_colon_at t = false -> has_colon_at s = false.
-Proof.
-  intros [p ->]. induction p as [|x p IH]; [exact (fun H => H)|]. intros H. apply IH.
-  cbn [app] in H. remember (p ++ s) as t eqn:E. destruct t as [|b t']; [reflexivity|].
-  cbn [has_colon_at] in H. apply orb_false_iff in H. tauto.
-Qed.
-
-Lemma a_part_colon_at T : list_eqb (a_part T) [58; 64] = true -> has_colon_at T = true.
-Proof.
-  intros H. apply list_eqb_spec in H. rewrite <- (a_part_rest T), H. reflexivity.
-Qed.
-
-(* ================= the Standard's path state without backslashes: spath_ok = spath_ok_s ================= *)
-Lemma spath_ok_eq_s t : memb 92 t = false -> forall P B, spath_ok t P B = spath_ok_s t P B.
-Proof.
-  induction t as [|c r IH]; intros H P B; [reflexivity|]. cbn [memb] in H. apply orb_false_iff in H. destruct H as [H1 H2].
-  cbn [spath_ok spath_ok_s].
-  assert (is_sl c = (c =? 47)) as -> by (unfold is_sl; rewrite N.eqb_sym in H1; rewrite H1; apply orb_false_r).
-  destruct (c =? 47); [rewrite (IH H2); reflexivity|]. destruct (is_qh c); [reflexivity | apply (IH H2)].
-Qed.
-
-Lemma hds_none_some p t : has_drive_segment_from None t = false -> has_drive_segment_from (Some p) t = false.
-Proof.
-  destruct t as [|a [|b rest]]; try reflexivity. rewrite !hds_cons. intros H. apply orb_false_iff in H. destruct H as [H1 H2].
-  rewrite H2, orb_false_r. rewrite andb_true_r in H1.
-  destruct (is_alpha a && ((b =? 58) || (b =? 124))); [|reflexivity]. cbn [andb] in *.
-  rewrite H1. apply andb_false_r.
-Qed.
-
-(* no drive-letter-shaped piece and no backslash in the text x that follows a path separator: the
-   exclusion F-C01-9 does not apply, whatever drive-letter-free segments P are already there *)
-Lemma nodrive_spath_ok x p P : is_path_end p = true -> nowdl P = true ->
-  has_drive_segment_from (Some p) x = false -> memb 92 x = false -> spath_ok x P [] = true.
-Proof.
-  intros Hp HP H Hb. rewrite (spath_ok_eq_s x Hb). change (@nil N) with (upe in_path_set []).
-  exact (spath_ok_s_raw x p [] P Hp eq_refl HP H).
-Qed.
-
-(* the authority class recogniser on a text T that is a suffix of a text without drive-letter-shaped
-   piece, without backslash and without ":@" *)
-Lemma auth_class_ok_known prev pre T : has_drive_segment_from prev (pre ++ T) = false ->
-  memb 92 T = false -> has_colon_at T = false -> auth_class_ok T = true.
-Proof.
-  intros Hd Hb Hc. unfold auth_class_ok.
-  assert (list_eqb (a_part T) [58; 64] = false) as ->.
-  { destruct (list_eqb (a_part T) [58; 64]) eqn:E; [|reflexivity]. rewrite (a_part_colon_at T E) in Hc. discriminate Hc. }
-  assert (auth_port_bslash T = false) as ->.
-  { unfold auth_port_bslash. destruct (port_split (hs_rest false (snd (after_at T)))) as [PR|] eqn:E; [|reflexivity].
-    destruct (starts_with_cp 92 (after_digits PR)) eqn:E92; [|apply andb_false_r]. exfalso.
-    assert (In 92 (after_digits PR)) as Hin.
-    { destruct (after_digits PR) as [|c r]; [discriminate E92|]. cbn [starts_with_cp] in E92. apply N.eqb_eq in E92. subst c. left. reflexivity. }
-    pose proof (suffix_trans _ _ _ (after_digits_suffix PR)
-                  (suffix_trans _ _ _ (port_split_suffix _ _ E)
-                     (suffix_trans _ _ _ (hs_rest_suffix (snd (after_at T)) false) (after_at_suffix T)))) as S.
-    pose proof (suffix_in 92 _ _ S Hin) as K. apply memb_spec in K. congruence. }
-  cbn [negb andb].
-  pose proof (auth_path_text_suffix T) as S.
-  destruct (auth_path_text T) as [|c r] eqn:E; [reflexivity|].
-  destruct (c =? 47) eqn:E47; [|reflexivity]. apply N.eqb_eq in E47. subst c.
-  destruct S as [p ES].
-  apply (nodrive_spath_ok r 47 []); [reflexivity | reflexivity | |].
-  - rewrite ES in Hd. rewrite app_assoc in Hd. exact (hds_suffix _ prev 47 r Hd).
-  - apply (memb_false_suffix 92 r T); [|exact Hb]. exists (p ++ [47]). rewrite <- app_assoc. exact ES.
-Qed.
-
-(* ================= Known_C01 read on the Standard's scheme scan ================= *)
-Lemma scheme_scan_none_leading t : forall buf, scheme_scan buf t = None -> leading_scheme_loop (rev buf) t = None.
-Proof.
-  induction t as [|c r IH]; intros buf H; [reflexivity|]. cbn [scheme_scan] in H. cbn [leading_scheme_loop].
-  change (is_alnum c || (c =? 43) || (c =? 45) || (c =? 46)) with (is_scheme_cp c).
-  destruct (is_scheme_cp c) eqn:Ec.
-  - specialize (IH _ H). rewrite rev_app_distr in IH. exact IH.
-  - destruct (c =? 58); [discriminate H | reflexivity].
-Qed.
-
-Lemma spec_scheme_none_leading t : spec_scheme t = None -> leading_scheme t = None.
-Proof.
-  unfold spec_scheme, leading_scheme. destruct t as [|c r]; [reflexivity|].
-  destruct (is_alpha c); [|reflexivity]. exact (scheme_scan_none_leading (c :: r) []).
-Qed.
-
-Lemma spec_scheme_some_leading t sch R : spec_scheme t = Some (sch, R) -> leading_scheme t = Some sch /\ after_colon t = R.
-Proof.
-  unfold spec_scheme, leading_scheme. destruct t as [|c r]; [discriminate|].
-  destruct (is_alpha c); [|discriminate]. exact (scheme_scan_leading (c :: r) [] sch R).
-Qed.
-
-Lemma special_name sch : is_special_scheme_name sch = is_special_scheme sch.
-Proof. unfold is_special_scheme_name. apply special_schemes_are_the_standards. Qed.
-
-(* no base, a scheme *)
-Lemma known_nobase_scheme input sch R :
-  spec_scheme (spec_clean input) = Some (sch, R) -> known_c01 None input = 0 ->
-  list_eqb sch str_file = false /\ has_drive_segment R = false
-  /\ (is_special_scheme sch = false -> memb 92 (spec_clean input) = false)
-  /\ has_colon_at (spec_clean input) = false.
-Proof.
-  intros Hs Hk. unfold known_c01 in Hk. cbv zeta in Hk.
-  change (cleaned input) with (ntnl (input_new_trim_c0 input)) in Hk. rewrite <- spec_clean_is_ntnl_trim in Hk.
-  destruct (spec_scheme_some_leading _ _ _ Hs) as [E1 E2]. rewrite E1, E2 in Hk.
-  change s_file with str_file in Hk. rewrite special_name in Hk.
-  destruct (list_eqb sch str_file); [discriminate Hk|]. cbn [orb] in Hk.
-  destruct (has_drive_segment R); [discriminate Hk|]. cbn [orb] in Hk.
-  split; [reflexivity|]. split; [reflexivity|].
-  destruct (is_special_scheme sch); cbn [negb andb] in Hk.
-  - split; [discriminate|]. destruct (has_colon_at (spec_clean input)); [discriminate Hk | reflexivity].
-  - destruct (memb 92 (spec_clean input)); [discriminate Hk|].
-    split; [reflexivity|]. destruct (has_colon_at (spec_clean input)); [discriminate Hk | reflexivity].
-Qed.
-
-(* a base, no scheme in the reference *)
-Lemma known_base_noscheme b input :
-  spec_scheme (spec_clean input) = None -> known_c01 (Some b) input = 0 ->
-  list_eqb (b_scheme b) str_file = false /\ has_drive_segment (spec_clean input) = false
-  /\ match path b with Some p => has_drive_segment p | None => false end = false
-  /\ (is_special_scheme (b_scheme b) = false -> memb 92 (spec_clean input) = false)
-  /\ has_colon_at (spec_clean input) = false.
-Proof.
-  intros Hs Hk. unfold known_c01 in Hk. cbv zeta in Hk.
-  change (cleaned input) with (ntnl (input_new_trim_c0 input)) in Hk. rewrite <- spec_clean_is_ntnl_trim in Hk.
-  rewrite (spec_scheme_none_leading _ Hs) in Hk.
-  change s_file with str_file in Hk. rewrite special_name in Hk.
-  destruct (list_eqb (b_scheme b) str_file); [discriminate Hk|]. cbn [orb] in Hk.
-  destruct (has_drive_segment (spec_clean input)); [discriminate Hk|]. cbn [orb] in Hk.
-  destruct (match path b with Some p => has_drive_segment p | None => false end); [discriminate Hk|].
-  split; [reflexivity|]. split; [reflexivity|]. split; [reflexivity|].
-  destruct (is_special_scheme (b_scheme b)); cbn [negb andb] in Hk.
-  - split; [discriminate|]. destruct (has_colon_at (spec_clean input)); [discriminate Hk | reflexivity].
-  - destruct (memb 92 (spec_clean input)); [discriminate Hk|].
-    split; [reflexivity|]. destruct (has_colon_at (spec_clean input)); [discriminate Hk | reflexivity].
-Qed.
-
-(* ================= no base: everything outside Known_C01 is in a proved class ================= *)
 Lemma orb_intro_r a b : b = true -> a || b = true.
 Proof. intros ->. apply orb_true_r. Qed.
 
+Lemma k_bad_ok x : k_bad x = 0 -> x = true.
+Proof. destruct x; [reflexivity | discriminate]. Qed.
+
+(* ================= no base: everything outside Known_C01 is in a proved class ================= *)
 Theorem nonspecial_nobase_covers input sch R :
   spec_scheme (spec_clean input) = Some (sch, R) -> is_special_scheme sch = false -> known_c01 None input = 0 ->
   in_class_opaque input || in_class_pathonly input || in_class_authority input = true.
 Proof.
-  intros Hs Hnsp Hk. destruct (known_nobase_scheme input sch R Hs Hk) as (_ & Hd & Hb & Hc).
-  specialize (Hb Hnsp). destruct (spec_scheme_suffix _ _ _ Hs) as [pre Epre].
-  assert (suffix_of R (spec_clean input)) as SR by (exists pre; exact Epre).
-  pose proof (memb_false_suffix 92 _ _ SR Hb) as HbR. pose proof (has_colon_at_suffix _ _ SR Hc) as HcR.
+  intros Hs Hnsp Hk. destruct (known_exact_nobase input sch R Hs Hk) as (_ & Hd). rewrite Hnsp in Hd.
   destruct R as [|c1 R1].
   { assert (in_class_opaque input = true) as -> by (unfold in_class_opaque; rewrite Hs, Hnsp; reflexivity). reflexivity. }
   destruct (c1 =? 47) eqn:E1.
   2:{ assert (in_class_opaque input = true) as ->
         by (unfold in_class_opaque; rewrite Hs, Hnsp; cbn [starts_with_cp]; rewrite E1; reflexivity). reflexivity. }
-  apply N.eqb_eq in E1. subst c1.
+  cbn [k_absolute] in Hd. rewrite E1 in Hd. apply N.eqb_eq in E1. subst c1.
   destruct R1 as [|c2 T].
   { apply orb_true_iff. left. apply orb_intro_r. unfold in_class_pathonly. rewrite Hs, Hnsp. reflexivity. }
   destruct (c2 =? 47) eqn:E2.
   - apply N.eqb_eq in E2. subst c2. apply orb_intro_r.
     unfold in_class_authority. rewrite Hs, Hnsp. cbn [negb andb N.eqb Pos.eqb].
-    apply (auth_class_ok_known None [47; 47] T).
-    + exact Hd.
-    + apply (memb_false_suffix 92 T (47 :: 47 :: T)); [exists [47; 47]; reflexivity | exact HbR].
-    + apply (has_colon_at_suffix T (47 :: 47 :: T)); [exists [47; 47]; reflexivity | exact HcR].
+    exact (k_auth_class_ok T Hd).
   - apply orb_true_iff. left. apply orb_intro_r. unfold in_class_pathonly. rewrite Hs, Hnsp.
     cbn [starts_with_cp negb andb]. rewrite E2. cbn [negb andb].
-    apply (nodrive_spath_ok (c2 :: T) 47 []); [reflexivity | reflexivity | |].
-    + exact (hds_suffix [] None 47 (c2 :: T) Hd).
-    + apply (memb_false_suffix 92 (c2 :: T) (47 :: c2 :: T)); [exists [47]; reflexivity | exact HbR].
+    exact (k_path_ok_spath0 _ (k_bad_ok _ Hd)).
 Qed.
 
 Theorem nobase_covers input : known_c01 None input = 0 -> in_proved_class3 None input = true.
@@ -242,7 +58,7 @@ Proof.
   - apply orb_intro_r. unfold in_class_noscheme_nobase. rewrite Hs. reflexivity.
 Qed.
 
-(* ================= a non-special related base, scheme-less reference ================= *)
+(* ================= the base record ================= *)
 Section BaseCover.
 Variable dbg : bool.
 Variable shs : spec_host -> list N.
@@ -254,46 +70,56 @@ Proof.
   injection A as _ _ _ _ _ _ _ A8 _ _. rewrite (path_eval b W). f_equal. exact A8.
 Qed.
 
-Lemma hds_drop pre : forall prev r, has_drive_segment_from prev (pre ++ r) = false ->
-  exists prev', has_drive_segment_from prev' r = false.
+Lemma related_cbb b sb : related dbg shs b sb -> k_cbb b = has_opaque_path sb.
+Proof. intros R. unfold k_cbb. rewrite (rel_cbb _ _ _ _ R). destruct (has_opaque_path sb); reflexivity. Qed.
+
+(* the drive-letter flags Known_C01 reads off the serialized path of the model record describe the
+   Standard's segment list (without its last segment) *)
+Lemma base_stack_wrel b sb : related dbg shs b sb -> has_opaque_path sb = false ->
+  forallb no_slash (Whatwg.path_segments sb) = true ->
+  wrel (removelast (Whatwg.path_segments sb)) (k_base_stack b).
 Proof.
-  induction pre as [|x pre IH]; intros prev r H; [exists prev; exact H|].
-  cbn [app] in H. destruct (pre ++ r) as [|b t] eqn:E.
-  - destruct pre; [|discriminate E]. cbn [app] in E. subst r. exists None. reflexivity.
-  - rewrite hds_cons in H. apply orb_false_iff in H. destruct H as [_ H]. rewrite <- E in H. exact (IH _ _ H).
+  intros R Hop Hns. unfold k_base_stack. rewrite (related_path b sb R).
+  assert (serialize_path sb = flat_map (fun s => 47 :: s) (Whatwg.path_segments sb)) as EP.
+  { unfold serialize_path, Whatwg.path_segments. unfold has_opaque_path in Hop. destruct (su_path sb); [discriminate Hop | reflexivity]. }
+  rewrite EP. destruct (Whatwg.path_segments sb) as [|s P]; [exact wrel_nil|].
+  cbn [flat_map app]. replace (47 =? 47) with true by reflexivity.
+  cbn [forallb] in Hns. apply andb_true_iff in Hns. destruct Hns as [Hs HP].
+  rewrite (k_split_flat P [] s Hs HP). cbn [app].
+  apply wrel_removelast. apply wrel_map.
 Qed.
 
-(* a drive-letter-shaped segment of the Standard's record shows in the serialized path *)
-Lemma nowdl_of_nodrive P : forall prev, forallb no_slash P = true ->
-  has_drive_segment_from prev (flat_map (fun s => 47 :: s) P) = false -> nowdl P = true.
+(* ================= any base (file bases included): bare references ================= *)
+(* empty, "?query", "#fragment": the classes of C01_EqRef / C01_EqEmpty hold for every kind of base *)
+Theorem bare_ref_covers sb input :
+  spec_scheme (spec_clean input) = None -> k_bare_ref (spec_clean input) = true ->
+  in_proved_class3 (Some sb) input = true.
 Proof.
-  induction P as [|s P IH]; intros prev Hns H; [reflexivity|].
-  cbn [forallb] in Hns. apply andb_true_iff in Hns. destruct Hns as [Hs HnsP].
-  cbn [flat_map] in H. unfold nowdl. cbn [forallb]. apply andb_true_iff. split.
-  - apply negb_true_iff. destruct (starts_with_wdl (s ++ [47])) eqn:E; [|reflexivity]. exfalso.
-    destruct s as [|a [|b rest]]; [discriminate E | |].
-    { cbn [app starts_with_wdl] in E. replace ((47 =? 58) || (47 =? 124)) with false in E by reflexivity.
-      rewrite andb_false_r in E. discriminate E. }
-    cbn [app starts_with_wdl] in E. apply andb_true_iff in E. destruct E as [E E3].
-    apply andb_true_iff in E. destruct E as [Ea Eb].
-    pose proof (hds_suffix [] prev 47 ((a :: b :: rest) ++ flat_map (fun s => 47 :: s) P) H) as H'.
-    cbn [app] in H'.
-    rewrite (hds_hit 47 a b (rest ++ flat_map (fun s => 47 :: s) P) eq_refl Ea Eb) in H'; [discriminate H'|].
-    destruct rest as [|c r].
-    + cbn [app]. destruct P as [|s' P']; [exact I | reflexivity].
-    + cbn [app] in *. exact E3.
-  - destruct (hds_drop (47 :: s) prev _ H) as [prev' H']. exact (IH prev' HnsP H').
+  intros Hs Hb. cbn [in_proved_class3].
+  destruct (starts_with_cp 35 (spec_clean input)) eqn:E35.
+  { assert (in_class_fragment_only input = true) as -> by exact E35. reflexivity. }
+  destruct (has_opaque_path sb) eqn:Hop.
+  { assert (in_class_opaque_base_fail sb input = true) as ->
+      by (unfold in_class_opaque_base_fail; rewrite Hop, Hs, E35; reflexivity).
+    rewrite !orb_true_r. reflexivity. }
+  destruct (spec_clean input) as [|c t] eqn:Ecl.
+  { assert (in_class_empty_ref sb input = true) as -> by (unfold in_class_empty_ref; rewrite Hop, Ecl; reflexivity).
+    rewrite !orb_true_r. reflexivity. }
+  cbn [k_bare_ref] in Hb. cbn [starts_with_cp] in E35. unfold k_qh in Hb. rewrite E35, orb_false_r in Hb.
+  assert (in_class_query_only sb input = true) as ->
+    by (unfold in_class_query_only; rewrite Hop, Ecl; cbn [negb andb starts_with_cp]; exact Hb).
+  rewrite !orb_true_r. reflexivity.
 Qed.
 
+(* ================= a non-special related base, scheme-less reference ================= *)
 Theorem nonspecial_base_covers b sb input :
   good_base dbg shs b sb -> is_special_scheme (su_scheme sb) = false ->
   spec_scheme (spec_clean input) = None -> known_c01 (Some b) input = 0 ->
   in_proved_class3 (Some sb) input = true.
 Proof.
   intros [R Hok] Hnsp Hs Hk.
-  destruct (known_base_noscheme b input Hs Hk) as (_ & Hd & Hp & Hb & Hc).
-  rewrite (rel_sch _ _ _ _ R) in Hb. specialize (Hb Hnsp).
-  rewrite (related_path b sb R) in Hp.
+  destruct (known_exact_base_noscheme b input Hs Hk) as [Hbare|(_ & Hd)]; [exact (bare_ref_covers sb input Hs Hbare)|].
+  rewrite (rel_sch _ _ _ _ R), Hnsp in Hd. unfold k_relative in Hd. rewrite (related_cbb b sb R) in Hd.
   cbn [in_proved_class3].
   destruct (has_opaque_path sb) eqn:Hop.
   { (* opaque-path base: '#' or failure *)
@@ -311,47 +137,39 @@ Proof.
   { assert (in_class_query_only sb input = true) as ->
       by (unfold in_class_query_only; rewrite Hop, Ecl; cbn [negb andb starts_with_cp]; exact E63).
     rewrite !orb_true_r. reflexivity. }
+  unfold k_qh in Hd. rewrite E35, E63 in Hd. cbn [orb] in Hd.
   apply orb_true_iff. left. apply orb_true_iff. left. apply orb_intro_r. unfold in_class_relative.
   destruct (c =? 47) eqn:E47.
   - apply N.eqb_eq in E47. subst c.
     destruct (starts_with_cp 47 t) eqn:E2.
     + (* "//": scheme-relative *)
-      destruct t as [|c2 T]; [discriminate E2|]. cbn [starts_with_cp] in E2. apply N.eqb_eq in E2. subst c2.
+      destruct t as [|c2 T]; [discriminate E2|]. cbn [starts_with_cp] in E2. rewrite E2 in Hd. apply N.eqb_eq in E2. subst c2.
       apply orb_intro_r. unfold in_class_rel_authority. rewrite Hop, Hnsp, Ecl. cbn [negb andb N.eqb Pos.eqb].
-      apply (auth_class_ok_known None [47; 47] T).
-      * exact Hd.
-      * apply (memb_false_suffix 92 T (47 :: 47 :: T)); [exists [47; 47]; reflexivity | exact Hb].
-      * apply (has_colon_at_suffix T (47 :: 47 :: T)); [exists [47; 47]; reflexivity | exact Hc].
+      exact (k_auth_class_ok T Hd).
     + (* "/x": path-absolute *)
       apply orb_true_iff. left. apply orb_true_iff. left.
       unfold in_class_rel_abs. rewrite Hop, Hnsp, Ecl, E2. cbn [negb andb N.eqb Pos.eqb].
-      apply (nodrive_spath_ok t 47 []); [reflexivity | reflexivity | |].
-      * exact (hds_suffix [] None 47 t Hd).
-      * apply (memb_false_suffix 92 t (47 :: t)); [exists [47]; reflexivity | exact Hb].
+      destruct t as [|c2 T]; [reflexivity|]. cbn [starts_with_cp] in E2. rewrite E2 in Hd.
+      exact (k_path_ok_spath0 _ (k_bad_ok _ Hd)).
   - (* path-relative *)
     apply orb_true_iff. left. apply orb_intro_r.
     unfold in_class_rel_path. rewrite Hop, Hnsp, Ecl, Hs, E47, E63, E35. cbn [negb andb].
     apply andb_true_iff in Hok. destruct Hok as [_ HnsP].
-    assert (serialize_path sb = flat_map (fun s => 47 :: s) (Whatwg.path_segments sb)) as EP.
-    { unfold serialize_path, Whatwg.path_segments. unfold has_opaque_path in Hop. destruct (su_path sb); [discriminate Hop | reflexivity]. }
-    rewrite EP in Hp.
-    apply (nodrive_spath_ok (c :: t) 47 (removelast (Whatwg.path_segments sb))); [reflexivity | | | exact Hb].
-    + apply nowdl_removelast. exact (nowdl_of_nodrive _ None HnsP Hp).
-    + apply hds_none_some. exact Hd.
+    change (@nil N) with (upe in_path_set []).
+    apply (k_path_ok_spath (c :: t) _ (k_base_stack b) []); [exact (base_stack_wrel b sb R Hop HnsP)|].
+    exact (k_bad_ok _ Hd).
 Qed.
 
-End BaseCover.
-
 (* ================= a special non-file base with a host, scheme-less reference ================= *)
-Theorem special_base_covers dbg shs b sb input :
+Theorem special_base_covers b sb input :
   good_base dbg shs b sb -> sp_base_ok sb = true ->
   spec_scheme (spec_clean input) = None -> known_c01 (Some b) input = 0 ->
   in_proved_class3 (Some sb) input = true.
 Proof.
   intros [R Hok] Hsb Hs Hk.
-  destruct (known_base_noscheme b input Hs Hk) as (_ & Hd & Hp & _ & _).
-  rewrite (related_path dbg shs b sb R) in Hp.
   destruct (sp_base_ok_facts sb Hsb) as (Hop & Hsp & Hnf & h & Eh).
+  destruct (known_exact_base_noscheme b input Hs Hk) as [Hbare|(_ & Hd)]; [exact (bare_ref_covers sb input Hs Hbare)|].
+  rewrite (rel_sch _ _ _ _ R), Hsp in Hd. unfold k_relative in Hd. rewrite (related_cbb b sb R), Hop in Hd.
   cbn [in_proved_class3].
   destruct (spec_clean input) as [|c t] eqn:Ecl.
   { assert (in_class_empty_ref sb input = true) as -> by (unfold in_class_empty_ref; rewrite Hop, Ecl; reflexivity).
@@ -362,53 +180,40 @@ Proof.
   { assert (in_class_query_only sb input = true) as ->
       by (unfold in_class_query_only; rewrite Hop, Ecl; cbn [negb andb starts_with_cp]; exact E63).
     rewrite !orb_true_r. reflexivity. }
+  unfold k_qh in Hd. rewrite E35, E63 in Hd. cbn [orb] in Hd. change (k_sl c) with (is_sl c) in Hd.
   apply orb_intro_r. unfold in_class_relative_s.
   pose proof Hok as Hok0. apply andb_true_iff in Hok0. destruct Hok0 as [Hcan HnsP].
   destruct (is_sl c) eqn:Esl.
-  - assert (is_path_end c = true) as Hpe by (unfold is_path_end; unfold is_sl in Esl; lia).
-    destruct t as [|c2 T].
-    + apply orb_true_iff. left. apply orb_true_iff. left. apply orb_true_iff. left. apply orb_true_iff. left. apply orb_true_iff. left. 
+  - destruct t as [|c2 T].
+    + apply orb_true_iff. left. apply orb_true_iff. left. apply orb_true_iff. left. apply orb_true_iff. left. apply orb_true_iff. left.
       unfold in_class_rel_abs_s. rewrite Hsb, Ecl, Esl. reflexivity.
-    + destruct (is_sl c2) eqn:Esl2.
+    + change (k_sl c2) with (is_sl c2) in Hd. destruct (is_sl c2) eqn:Esl2.
       * apply orb_true_iff. left. apply orb_true_iff. left. apply orb_true_iff. left. apply orb_intro_r. rewrite Hcan. cbn [andb].
         unfold in_class_rel_authority_s. rewrite Hop, Hsp, Hnf, Ecl, Esl, Esl2. cbn [negb andb].
-        apply (sp_class_ok_nodrive_from (Some c2) T). exact (hds_suffix [c] None c2 T Hd).
-      * apply orb_true_iff. left. apply orb_true_iff. left. apply orb_true_iff. left. apply orb_true_iff. left. apply orb_true_iff. left. 
+        exact (k_special_class_ok T Hd).
+      * apply orb_true_iff. left. apply orb_true_iff. left. apply orb_true_iff. left. apply orb_true_iff. left. apply orb_true_iff. left.
         unfold in_class_rel_abs_s. rewrite Hsb, Ecl, Esl, Esl2. cbn [negb andb].
-        change (@nil N) with (upe in_path_set []).
-        apply (spath_ok_s_raw (c2 :: T) c [] []); [exact Hpe | reflexivity | reflexivity|].
-        exact (hds_suffix [] None c (c2 :: T) Hd).
+        exact (k_path_ok_spath_s0 _ (k_bad_ok _ Hd)).
   - apply orb_true_iff. left. apply orb_true_iff. left. apply orb_true_iff. left. apply orb_true_iff. left. apply orb_intro_r.
     unfold in_class_rel_path_s. rewrite Hsb, Ecl, Hs, Esl, E63, E35. cbn [negb andb].
-    assert (serialize_path sb = flat_map (fun s => 47 :: s) (Whatwg.path_segments sb)) as EP.
-    { unfold serialize_path, Whatwg.path_segments. unfold has_opaque_path in Hop. destruct (su_path sb); [discriminate Hop | reflexivity]. }
-    rewrite EP in Hp.
     change (@nil N) with (upe in_path_set []).
-    apply (spath_ok_s_raw (c :: t) 47 [] (removelast (Whatwg.path_segments sb))); [reflexivity | reflexivity | |].
-    + apply nowdl_removelast. exact (nowdl_of_nodrive _ None HnsP Hp).
-    + apply hds_none_some. exact Hd.
+    apply (k_path_ok_spath_s (c :: t) _ (k_base_stack b) []); [exact (base_stack_wrel b sb R Hop HnsP)|].
+    exact (k_bad_ok _ Hd).
 Qed.
 
 (* ================= any base, a reference with a scheme of its own that makes the base irrelevant ================= *)
-Lemma known_base_own_scheme b input sch R :
-  spec_scheme (spec_clean input) = Some (sch, R) -> known_c01 (Some b) input = 0 -> known_c01 None input = 0.
-Proof.
-  intros Hs Hk. unfold known_c01 in *. cbv zeta in *.
-  change (cleaned input) with (ntnl (input_new_trim_c0 input)) in *. rewrite <- spec_clean_is_ntnl_trim in *.
-  destruct (spec_scheme_some_leading _ _ _ Hs) as [E1 E2]. rewrite E1, E2 in *.
-  destruct (list_eqb sch s_file); [discriminate Hk|]. cbn [orb] in *.
-  destruct (has_drive_segment R); [discriminate Hk|]. cbn [orb] in *.
-  destruct (match path b with Some p => has_drive_segment p | None => false end); [discriminate Hk|].
-  exact Hk.
-Qed.
-
+(* (the model record and the Standard's record must carry the same scheme - part of `related`) *)
 Theorem own_scheme_base_covers sb b input sch R :
+  b_scheme b = su_scheme sb ->
   spec_scheme (spec_clean input) = Some (sch, R) ->
   is_special_scheme sch = false \/ list_eqb (su_scheme sb) sch = false ->
   known_c01 (Some b) input = 0 -> in_proved_class3 (Some sb) input = true.
 Proof.
-  intros Hs Hign Hk. pose proof (known_base_own_scheme b input sch R Hs Hk) as Hk0.
-  destruct (known_nobase_scheme input sch R Hs Hk0) as (Hnf & _).
+  intros Hsch Hs Hign Hk.
+  assert (is_special_scheme sch && list_eqb sch (b_scheme b) && negb (k_two_sl R) = false) as Hi.
+  { destruct Hign as [H|H]; [rewrite H; reflexivity|]. rewrite Hsch, list_eqb_sym', H. rewrite andb_false_r. reflexivity. }
+  pose proof (known_exact_absolute b input sch R Hs Hi Hk) as Hk0.
+  destruct (known_exact_nobase input sch R Hs Hk0) as (Hnf & _).
   cbn [in_proved_class3]. apply orb_true_iff. left. apply orb_intro_r. unfold in_class_abs_base. rewrite Hs.
   apply andb_true_iff. split; [|exact (nobase_covers input Hk0)].
   apply orb_true_iff. left.
@@ -417,30 +222,16 @@ Proof.
 Qed.
 
 (* ================= a special base, a reference with the scheme of the base ================= *)
-Lemma known_base_scheme b input sch R :
-  spec_scheme (spec_clean input) = Some (sch, R) -> known_c01 (Some b) input = 0 ->
-  list_eqb sch str_file = false /\ has_drive_segment R = false
-  /\ match path b with Some p => has_drive_segment p | None => false end = false.
-Proof.
-  intros Hs Hk. unfold known_c01 in Hk. cbv zeta in Hk.
-  change (cleaned input) with (ntnl (input_new_trim_c0 input)) in Hk. rewrite <- spec_clean_is_ntnl_trim in Hk.
-  destruct (spec_scheme_some_leading _ _ _ Hs) as [E1 E2]. rewrite E1, E2 in Hk. change s_file with str_file in Hk.
-  destruct (list_eqb sch str_file); [discriminate Hk|]. cbn [orb] in Hk.
-  destruct (has_drive_segment R); [discriminate Hk|]. cbn [orb] in Hk.
-  destruct (match path b with Some p => has_drive_segment p | None => false end); [discriminate Hk|].
-  repeat split.
-Qed.
-
-Theorem same_scheme_base_covers dbg shs b sb input R :
+Theorem same_scheme_base_covers b sb input R :
   good_base dbg shs b sb -> sp_base_ok sb = true ->
   spec_scheme (spec_clean input) = Some (su_scheme sb, R) ->
   known_c01 (Some b) input = 0 -> in_proved_class3 (Some sb) input = true.
 Proof.
   intros [Rl Hok] Hsb Hs Hk.
-  destruct (known_base_scheme b input _ R Hs Hk) as (Hnf' & Hd & Hp).
-  rewrite (related_path dbg shs b sb Rl) in Hp.
   destruct (sp_base_ok_facts sb Hsb) as (Hop & Hsp & Hnf & h & Eh).
   pose proof Hok as Hok0. apply andb_true_iff in Hok0. destruct Hok0 as [Hcan HnsP].
+  destruct (known_exact_base_scheme b input _ R Hs Hk) as (_ & Hd).
+  rewrite (rel_sch _ _ _ _ Rl), Hsp, list_eqb_refl in Hd. cbn [andb] in Hd.
   cbn [in_proved_class3].
   assert (forall X, X = true -> in_class_same_bare sb input = X -> in_class_fragment_only input || in_class_query_only sb input
             || in_class_opaque_base_fail sb input || in_class_empty_ref sb input || in_class_relative sb input
@@ -451,29 +242,34 @@ Proof.
   destruct (is_qh c) eqn:Hbare.
   { apply (Kbare _ eq_refl). unfold in_class_same_bare. rewrite Hsb, Hs, list_eqb_refl, Hbare. reflexivity. }
   destruct (is_sl c) eqn:Esl.
-  - assert (is_path_end c = true) as Hpe by (unfold is_path_end; unfold is_sl in Esl; lia).
-    destruct (match t with c2 :: _ => is_sl c2 | [] => false end) eqn:Esl2.
+  - destruct (match t with c2 :: _ => is_sl c2 | [] => false end) eqn:Esl2.
     + (* two slashes: the base is ignored *)
+      assert (k_two_sl (c :: t) = true) as E2 by (destruct t as [|c2 T]; [discriminate Esl2|]; cbn [k_two_sl]; change (k_sl c) with (is_sl c); change (k_sl c2) with (is_sl c2); rewrite Esl, Esl2; reflexivity).
+      assert (is_special_scheme (su_scheme sb) && list_eqb (su_scheme sb) (b_scheme b) && negb (k_two_sl (c :: t)) = false) as Hi
+        by (rewrite E2; apply andb_false_r).
       apply orb_true_iff. left. apply orb_intro_r. unfold in_class_abs_base. rewrite Hs.
-      apply andb_true_iff. split; [|exact (nobase_covers input (known_base_own_scheme b input _ _ Hs Hk))].
+      apply andb_true_iff. split; [|exact (nobase_covers input (known_exact_absolute b input _ _ Hs Hi Hk))].
       apply orb_intro_r. unfold same_two_sl. rewrite list_eqb_refl, Hsp, Hnf. cbn [negb andb].
       destruct t as [|c2 T]; [discriminate Esl2|]. cbn [two_sl]. rewrite Esl, Esl2. reflexivity.
-    + apply orb_intro_r. unfold in_class_relative_s. apply orb_true_iff. left. apply orb_true_iff. left. apply orb_intro_r.
+    + assert (k_two_sl (c :: t) = false) as E2 by (destruct t as [|c2 T]; [reflexivity|]; cbn [k_two_sl]; change (k_sl c2) with (is_sl c2); rewrite Esl2; apply andb_false_r).
+      rewrite E2 in Hd. cbn [negb] in Hd. unfold k_relative in Hd. rewrite (related_cbb b sb Rl), Hop in Hd.
+      change (k_qh c) with (is_qh c) in Hd. change (k_sl c) with (is_sl c) in Hd. rewrite Hbare, Esl in Hd.
+      apply orb_intro_r. unfold in_class_relative_s. apply orb_true_iff. left. apply orb_true_iff. left. apply orb_intro_r.
       unfold in_class_same_abs_s. rewrite Hsb, Hs, list_eqb_refl, Esl, Esl2. cbn [negb andb].
-      change (@nil N) with (upe in_path_set []).
-      apply (spath_ok_s_raw t c [] []); [exact Hpe | reflexivity | reflexivity|].
-      exact (hds_suffix [] None c t Hd).
-  - apply orb_intro_r. unfold in_class_relative_s. apply orb_true_iff. left. apply orb_intro_r.
+      destruct t as [|c2 T]; [reflexivity|]. change (k_sl c2) with (is_sl c2) in Hd. rewrite Esl2 in Hd.
+      exact (k_path_ok_spath_s0 _ (k_bad_ok _ Hd)).
+  - assert (k_two_sl (c :: t) = false) as E2 by (destruct t as [|c2 T]; [reflexivity|]; cbn [k_two_sl]; change (k_sl c) with (is_sl c); rewrite Esl; reflexivity).
+    rewrite E2 in Hd. cbn [negb] in Hd. unfold k_relative in Hd. rewrite (related_cbb b sb Rl), Hop in Hd.
+    change (k_qh c) with (is_qh c) in Hd. change (k_sl c) with (is_sl c) in Hd. rewrite Hbare, Esl in Hd.
+    apply orb_intro_r. unfold in_class_relative_s. apply orb_true_iff. left. apply orb_intro_r.
     unfold in_class_same_path_s. rewrite Hsb, Hs, list_eqb_refl, Esl. cbn [negb andb].
     unfold is_qh in Hbare. apply orb_false_iff in Hbare. destruct Hbare as [E63 E35]. rewrite E63, E35. cbn [negb andb].
-    assert (serialize_path sb = flat_map (fun s => 47 :: s) (Whatwg.path_segments sb)) as EP.
-    { unfold serialize_path, Whatwg.path_segments. unfold has_opaque_path in Hop. destruct (su_path sb); [discriminate Hop | reflexivity]. }
-    rewrite EP in Hp.
     change (@nil N) with (upe in_path_set []).
-    apply (spath_ok_s_raw (c :: t) 47 [] (removelast (Whatwg.path_segments sb))); [reflexivity | reflexivity | |].
-    + apply nowdl_removelast. exact (nowdl_of_nodrive _ None HnsP Hp).
-    + apply hds_none_some. exact Hd.
+    apply (k_path_ok_spath_s (c :: t) _ (k_base_stack b) []); [exact (base_stack_wrel b sb Rl Hop HnsP)|].
+    exact (k_bad_ok _ Hd).
 Qed.
+
+End BaseCover.
 
 (* ================= every base, every reference ================= *)
 (* what is asked of a base record beyond good_base: base_shape_ok (Proofs/C01_EqShape.v) - a special non-file
@@ -486,13 +282,14 @@ Theorem base_covers dbg shs b sb input :
 Proof.
   intros Hb Hshape Hk. pose proof Hb as [Rl Hok].
   destruct (spec_scheme (spec_clean input)) as [[sch R]|] eqn:Hs.
-  - destruct (is_special_scheme sch) eqn:Hsp; [|exact (own_scheme_base_covers sb b input sch R Hs (or_introl Hsp) Hk)].
-    destruct (list_eqb (su_scheme sb) sch) eqn:Eq; [|exact (own_scheme_base_covers sb b input sch R Hs (or_intror Eq) Hk)].
+  - destruct (is_special_scheme sch) eqn:Hsp; [|exact (own_scheme_base_covers sb b input sch R (rel_sch _ _ _ _ Rl) Hs (or_introl Hsp) Hk)].
+    destruct (list_eqb (su_scheme sb) sch) eqn:Eq; [|exact (own_scheme_base_covers sb b input sch R (rel_sch _ _ _ _ Rl) Hs (or_intror Eq) Hk)].
     apply list_eqb_spec in Eq. subst sch.
-    destruct (known_base_scheme b input _ R Hs Hk) as (Hnf & _).
+    destruct (known_exact_base_scheme b input _ R Hs Hk) as (Hnf & _).
     unfold base_shape_ok in Hshape. rewrite Hsp, Hnf in Hshape. cbn [negb orb] in Hshape.
     exact (same_scheme_base_covers dbg shs b sb input R Hb Hshape Hs Hk).
-  - destruct (known_base_noscheme b input Hs Hk) as (Hnf & _). rewrite (rel_sch _ _ _ _ Rl) in Hnf.
+  - destruct (known_exact_base_noscheme b input Hs Hk) as [Hbare|(Hnf & _)]; [exact (bare_ref_covers sb input Hs Hbare)|].
+    rewrite (rel_sch _ _ _ _ Rl) in Hnf.
     destruct (is_special_scheme (su_scheme sb)) eqn:Hsp; [|exact (nonspecial_base_covers dbg shs b sb input Hb Hsp Hs Hk)].
     unfold base_shape_ok in Hshape. rewrite Hsp, Hnf in Hshape. cbn [negb orb] in Hshape.
     exact (special_base_covers dbg shs b sb input Hb Hshape Hs Hk).
@@ -538,7 +335,7 @@ Theorem statement_own_scheme_base b sb input sch R : usv_list input ->
   agree_good dbg shs (parse_url dbg hp hpo hd None (Some b) input) (spec_basic_url_parse shp input (Some sb)).
 Proof.
   intros Hu Hb Hs Hign Hk HH. apply (partial_equivalence_good3 dbg hp hpo hd shp shs input (Some b) (Some sb) Hu Hb); [|exact HH].
-  exact (own_scheme_base_covers sb b input sch R Hs Hign Hk).
+  exact (own_scheme_base_covers sb b input sch R (rel_sch _ _ _ _ (proj1 Hb)) Hs Hign Hk).
 Qed.
 
 (* a good_base pair with a special non-file scheme and a host, scheme-less reference *)
@@ -698,3 +495,63 @@ Proof.
   intros HI input base sbase Hu Hb Hk. apply agree_good_shape.
   exact (proj1 (statement_all_model dbg idna HI input base sbase Hu Hb Hk)).
 Qed.
+
+(* ================= the classes of Known_C01 are inhabited by real divergences ================= *)
+(* the identity as the domain-to-ASCII oracle: all witnesses are ASCII *)
+Definition id_idna (x : list N) : option (list N) := Some x.
+Definition sides_differ (base : option url) (sbase : option spec_url) (input : list N) : Prop :=
+  ~ statement_shape true spec_host_serializer
+      (parse_url true (host_parse id_idna) host_parse_opaque host_display None base input)
+      (spec_basic_url_parse (spec_host_parser id_idna) input sbase).
+
+Definition wit_k1 : list N := [102;105;108;101;58;47;47;47;67;124].          (* file:///C|   : file:///C| vs file:///C: *)
+Definition wit_k2 : list N := [110;58;47;67;124;47;46;46].                    (* n:/C|/..     : n:/C|/ vs n:/ *)
+Definition wit_k3 : list N := [110;58;47;47;120;46;121;58;56;92].             (* n://x.y:8\   : accepted vs failure *)
+Definition wit_k4 : list N := [98;108;111;98;58;47;47;58;64;47].              (* blob://:@/   : accepted vs failure *)
+
+Theorem known_classes_refuted :
+  (known_c01 None wit_k1 = 1 /\ sides_differ None None wit_k1)
+  /\ (known_c01 None wit_k2 = 2 /\ sides_differ None None wit_k2)
+  /\ (known_c01 None wit_k3 = 3 /\ sides_differ None None wit_k3)
+  /\ (known_c01 None wit_k4 = 4 /\ sides_differ None None wit_k4).
+Proof.
+  repeat split; try (vm_compute; reflexivity); unfold sides_differ; vm_compute; intros H; try exact H; try discriminate H.
+Qed.
+
+(* class 2 through the base: "../y" against n:/C:/x  (n:/C:/y vs n:/y) *)
+Definition wit_k2_base : list N := [110;58;47;67;58;47;120].                  (* n:/C:/x *)
+Definition wit_k2_ref : list N := [46;46;47;121].                             (* ../y *)
+Theorem known_class2_base_refuted :
+  match parse_url true (host_parse id_idna) host_parse_opaque host_display None None wit_k2_base,
+        spec_basic_url_parse (spec_host_parser id_idna) wit_k2_base None with
+  | POk b, BDone sb => known_c01 (Some b) wit_k2_ref = 2 /\ known_c01 None wit_k2_base = 0
+                       /\ sides_differ (Some b) (Some sb) wit_k2_ref
+  | _, _ => False
+  end.
+Proof.
+  vm_compute. split; [reflexivity|]. split; [reflexivity|]. intros H; discriminate H.
+Qed.
+
+(* inputs of the former broad classes that the exact classes leave (and on which the sides agree by
+   statement_all): ':@' in a special URL and inside credentials, a drive-letter-shaped segment that no ".."
+   meets, a backslash in the path / query of a non-special URL *)
+Definition nar_1 : list N := [104;116;116;112;58;47;47;117;58;64;104;47].            (* http://u:@h/ *)
+Definition nar_2 : list N := [110;58;47;47;117;58;64;104;47;58;64].                  (* n://u:@h/:@ *)
+Definition nar_3 : list N := [110;58;47;47;104;47;67;58;47;120;47;46;46].            (* n://h/C:/x/.. *)
+Definition nar_4 : list N := [110;58;47;47;104;58;56;47;97;92;98;63;92].             (* n://h:8/a\b?\ *)
+Theorem known_narrowed :
+  (known_c01_broad None nar_1 = 4 /\ known_c01 None nar_1 = 0)
+  /\ (known_c01_broad None nar_2 = 4 /\ known_c01 None nar_2 = 0)
+  /\ (known_c01_broad None nar_3 = 2 /\ known_c01 None nar_3 = 0)
+  /\ (known_c01_broad None nar_4 = 3 /\ known_c01 None nar_4 = 0).
+Proof. vm_compute. repeat split. Qed.
+
+(* class 1 does not contain the bare references against a file base *)
+Definition file_base_text : list N := [102;105;108;101;58;47;47;104;47;116;109;112;47;120].   (* file://h/tmp/x *)
+Theorem known_file_bare :
+  match parse_url true (host_parse id_idna) host_parse_opaque host_display None None file_base_text with
+  | POk b => known_c01 (Some b) [35; 102] = 0 /\ known_c01 (Some b) [63; 113] = 0 /\ known_c01 (Some b) [] = 0
+             /\ known_c01 (Some b) [32; 9] = 0 /\ known_c01 (Some b) [120] = 1 /\ known_c01 (Some b) [47; 120] = 1
+  | _ => False
+  end.
+Proof. vm_compute. repeat split. Qed.
